@@ -412,6 +412,20 @@ fn main() {
             }
         }
     }
+    // and once more alone, now that the threads are gone: whatever they left behind in the process (a
+    // cache filled by two racing writers, a flag) must not change what the same instances do afterwards
+    let after: Vec<Vec<u64>> = scenario.iter().map(|t| t.iter().map(run_inst).collect()).collect();
+    for (t, (a, c)) in alone.iter().zip(after.iter()).enumerate() {
+        for (k, (x, y)) in a.iter().zip(c.iter()).enumerate() {
+            if x != y {
+                println!(
+                    "MISMATCH scenario_seed={} thread={} instance={} {:?}: alone before the threads {:#x}, alone after them {:#x}",
+                    seed, t, k, scenario[t][k].what, x, y
+                );
+                bad += 1;
+            }
+        }
+    }
     if bad > 0 {
         std::process::exit(3);
     }
